@@ -25,9 +25,10 @@ from c01 import pipeline
 
 LEVEL = "model_checking"
 
-MOMENTS_Q = ["idle", "drained", "paused", "paused-midfeed", "midfetch", "midfetch-discard", "midfetch-cut", "hook:lq.claim:1", "hook:pre.take:2", "hook:arch.take:2",
+MOMENTS_Q = ["idle", "drained", "paused", "midfetch", "midfetch-discard", "midfetch-cut", "hook:lq.claim:1", "hook:pre.take:2", "hook:arch.take:2",
              "hook:arch.item.response:3", "hook:post.take:2", "hook:fin.finish:1",
-             "hold:pre.take:2", "hold:arch.take:2", "hold:post.take:2", "hold:fin.finish:1"]
+             "hold:pre.take:2", "hold:arch.take:2", "hold:post.take:2", "hold:fin.finish:1",
+             "paused-midfeed"]     # (new moments go to the end: the rotation below is by position)
 # workers pool async ratelimit seencheck proxy
 CONFIGS_Q = [(2, 1, 0, 0, 1, 0), (3, 2, 1, 1, 1, 0), (1, 1, 0, 0, 0, 0), (2, 1, 0, 0, 1, 1)]
 
